@@ -136,6 +136,16 @@ fn emit_random(a: &mut Asm, rng: &mut Rng, nfuncs: usize, allow_call: bool) {
                 }
             }
         },
+        16 if allow_call && rng.below(3) == 0 => {
+            // threaded code: returns that no call matches.  push &L2 ; push &L1 ; ret ; L1: ret ; L2:
+            let here = PROG_START + a.b.len() as u64;
+            let l1 = here + 11;
+            let l2 = l1 + 1;
+            a.push_imm32(l2 as u32);
+            a.push_imm32(l1 as u32);
+            a.ret();
+            a.ret();
+        }
         16 => a.mov_r_imm32(reg_no_sp(rng), rng.val() as u32),
         17 => {
             if rng.below(6) == 0 {
@@ -153,6 +163,8 @@ fn emit_random(a: &mut Asm, rng: &mut Rng, nfuncs: usize, allow_call: bool) {
         }
     }
 }
+
+pub const PROG_START: u64 = CODE + 0x400;
 
 /// Returns (program bytes, end offset where execution stops normally).
 fn gen_program(rng: &mut Rng) -> (Vec<u8>, usize) {
@@ -206,7 +218,7 @@ fn gen_program(rng: &mut Rng) -> (Vec<u8>, usize) {
 
 pub fn run_program(m: &mut HwMonitor, col: &mut Collector, rng: &mut Rng) {
     let (prog, end) = gen_program(rng);
-    let start = CODE + 0x400;
+    let start = PROG_START;
     // initial state
     let mut t0 = Trial { code: vec![], rip: start, gpr: [0; 16], flags: 0, xmm: [0; 16], fs: 0, gs: 0, patches: vec![(start, prog.clone())] };
     for g in t0.gpr.iter_mut() {
